@@ -157,6 +157,9 @@ func (g *igen) perturb(v any) any {
 		}
 		return x
 	case json.Number:
+		if r.IntN(6) == 0 {
+			return string(x) // the number as a string of the same text
+		}
 		rt, ok := new(big.Rat).SetString(string(x))
 		if !ok {
 			return x
@@ -168,6 +171,10 @@ func (g *igen) perturb(v any) any {
 		}
 		return ratNumber(rt)
 	case string:
+		// a numeric string becomes the number it spells (a json.Number has Go kind string: "1" vs 1 must stay apart)
+		if _, ok := new(big.Rat).SetString(x); ok && json.Valid([]byte(x)) && r.IntN(2) == 0 {
+			return json.Number(x)
+		}
 		switch r.IntN(3) {
 		case 0:
 			return x + Pick(r, []string{"a", "b", "é", "😀", "0"})
